@@ -61,8 +61,69 @@ static long iteration(int it){ int p[2]; if(pipe(p)) return 0; g_it=it; fcntl(p[
   dispatch_io_close(B,0); dispatch_release(A); dispatch_release(B);
   for(int c=0;c<2 && !viol;c++) if(dispatch_semaphore_wait(cs,dispatch_time(DISPATCH_TIME_NOW,10ll*1000000000ll))) fail("a cleanup handler never ran (10 s): iteration",it,0,0);
   close(p[0]); dispatch_sync(hq,^{}); dispatch_release(hq); dispatch_release(cq); dispatch_release(cs); free(O); return na+nb; }
+// ---- the failed operation of a stopped channel with other channels' operations queued behind it (forced): a read of channel A waits
+// for data, two reads of channel B are queued behind it; data arrives, the readiness source fires and the stream's handler picks A's
+// read - it is held at its first step, the hold it takes on the descriptor entry, while this thread stops A; the operation then
+// fails inside the handler. The reads of channel B queued behind it must still be served.
+extern dispatch_queue_t _dispatch_verif_io_close_queue(dispatch_io_t channel);
+extern volatile void *_dispatch_verif_queue_state_addr(dispatch_queue_t dq);
+static volatile void *F_CQS; static atomic_int f_arm, f_held, f_go, f_skip;
+static void fcb(const volatile void *addr, unsigned size, int op, uint64_t o, uint64_t n, const char *func, int line){ (void)size;(void)o;(void)n;(void)line;
+  if(addr!=F_CQS || op!=3 || strcmp(func,"_dispatch_lane_suspend") || pthread_equal(pthread_self(),main_th)) return;
+  if(atomic_load(&f_arm) && atomic_fetch_sub(&f_skip,1)<=0 && atomic_exchange(&f_arm,0)){ atomic_store(&f_held,1); for(int w=0; w<20000 && !atomic_load(&f_go); w++) usleep(50); } }
+static long forced_err(int it){ int p[2]; if(pipe(p)) return 0; g_it=it;
+  dispatch_queue_t hq=dispatch_queue_create("h",NULL), cq=dispatch_queue_create("c",NULL); dispatch_semaphore_t cs=dispatch_semaphore_create(0);
+  dispatch_io_t A=dispatch_io_create(DISPATCH_IO_STREAM,p[0],cq,^(int e){ (void)e; dispatch_semaphore_signal(cs); });
+  dispatch_io_t B=dispatch_io_create(DISPATCH_IO_STREAM,p[0],cq,^(int e){ (void)e; dispatch_semaphore_signal(cs); });
+  dispatch_io_set_low_water(A,1); dispatch_io_set_low_water(B,1);
+  dispatch_semaphore_t s0=dispatch_semaphore_create(0); dispatch_io_barrier(A,^{ dispatch_semaphore_signal(s0); }); dispatch_semaphore_wait(s0,DISPATCH_TIME_FOREVER); dispatch_release(s0);
+  F_CQS=_dispatch_verif_queue_state_addr(_dispatch_verif_io_close_queue(A)); atomic_store(&f_arm,0); atomic_store(&f_held,0); atomic_store(&f_go,0); atomic_store(&f_skip,0);
+  __block _Atomic int a_part=0, a_done=0, b_done=0; __block _Atomic long b_bytes=0;
+  dispatch_io_read(A,0,8,hq,^(bool done, dispatch_data_t d, int e){ (void)e; if(d && dispatch_data_get_size(d) && !done) atomic_store(&a_part,1); if(done) atomic_store(&a_done,1); });
+  for(int k=0;k<2;k++) dispatch_io_read(B,0,4,hq,^(bool done, dispatch_data_t d, int e){ (void)e; if(d) atomic_fetch_add(&b_bytes,(long)dispatch_data_get_size(d)); if(done) atomic_fetch_add(&b_done,1); });
+  usleep(3000);                                       // all three reads are queued on the stream, the first one waits for data (readiness source armed)
+  _dispatch_verif_atomic_cb=fcb; atomic_store(&f_arm,1);           // the next hold a worker takes on the entry is the handler, run by the fired source, picking A's read
+  if(write(p[1],"0123",4)!=4) return 0;
+  for(int w=0; w<4000 && !atomic_load(&f_held); w++) usleep(50);
+  dispatch_io_close(A,DISPATCH_IO_STOP); atomic_store(&f_go,1); usleep(300); _dispatch_verif_atomic_cb=cb; atomic_store(&f_arm,0);
+  if(getenv("REARM_DEBUG")) fprintf(stderr,"forced: held=%d a_part=%d a_done=%d b_done=%d\n",atomic_load(&f_held),atomic_load(&a_part),atomic_load(&a_done),atomic_load(&b_done));
+  if(write(p[1],"456789ab",8)!=8){} usleep(500); close(p[1]);
+  for(int w=0; w<3000 && atomic_load(&b_done)<2; w++) usleep(1000);
+  if(atomic_load(&b_done)<2) fail("reads of a channel queued behind the read of another channel that failed when that channel was stopped were never served (3 s after their data and end of file had arrived): iteration / completed of 2 / handler was held (1) or not (0)",it,atomic_load(&b_done),atomic_load(&f_held));
+  for(int w=0; w<3000 && !atomic_load(&a_done); w++) usleep(1000);
+  if(!viol && !atomic_load(&a_done)) fail("the read of the stopped channel never completed: iteration",it,0,0);
+  dispatch_io_close(B,0); dispatch_release(A); dispatch_release(B);
+  for(int c=0;c<2 && !viol;c++) if(dispatch_semaphore_wait(cs,dispatch_time(DISPATCH_TIME_NOW,10ll*1000000000ll))) fail("a cleanup handler never ran (10 s) after the forced failure: iteration",it,0,0);
+  close(p[0]); dispatch_sync(hq,^{}); dispatch_release(hq); dispatch_release(cq); dispatch_release(cs); return 3; }
+// ---- two requests for the stream's handler (forced): A's first read completes with data while a second read of A is queued, so the
+// handler asks to be run again; the handler is held just before that (at the hold it takes for the delivery) while this thread stops
+// A - which removes the queued read - and schedules reads of B: the first of them finds the list empty and asks for the handler too.
+// Both requests then meet an empty pipe; the readiness source may be armed once.
+static long forced_twice(int it){ int p[2]; if(pipe(p)) return 0; g_it=it;
+  dispatch_queue_t hq=dispatch_queue_create("h",NULL), cq=dispatch_queue_create("c",NULL); dispatch_semaphore_t cs=dispatch_semaphore_create(0);
+  dispatch_io_t A=dispatch_io_create(DISPATCH_IO_STREAM,p[0],cq,^(int e){ (void)e; dispatch_semaphore_signal(cs); });
+  dispatch_io_t B=dispatch_io_create(DISPATCH_IO_STREAM,p[0],cq,^(int e){ (void)e; dispatch_semaphore_signal(cs); });
+  dispatch_io_set_low_water(A,1); dispatch_io_set_low_water(B,1);
+  dispatch_semaphore_t s0=dispatch_semaphore_create(0); dispatch_io_barrier(A,^{ dispatch_semaphore_signal(s0); }); dispatch_semaphore_wait(s0,DISPATCH_TIME_FOREVER); dispatch_release(s0);
+  F_CQS=_dispatch_verif_queue_state_addr(_dispatch_verif_io_close_queue(A)); atomic_store(&f_arm,0); atomic_store(&f_held,0); atomic_store(&f_go,0);
+  __block _Atomic int a_done=0, b_done=0;
+  for(int k=0;k<2;k++) dispatch_io_read(A,0,4,hq,^(bool done, dispatch_data_t d, int e){ (void)d;(void)e; if(done) atomic_fetch_add(&a_done,1); });
+  usleep(3000);
+  atomic_store(&f_skip,1); _dispatch_verif_atomic_cb=fcb; atomic_store(&f_arm,1);     // skip the handler's own hold, stop at the one it takes for the delivery
+  if(write(p[1],"0123",4)!=4) return 0;
+  for(int w=0; w<4000 && !atomic_load(&f_held); w++) usleep(50);
+  dispatch_io_close(A,DISPATCH_IO_STOP);
+  for(int k=0;k<3;k++) dispatch_io_read(B,0,4,hq,^(bool done, dispatch_data_t d, int e){ (void)d;(void)e; if(done) atomic_fetch_add(&b_done,1); });
+  usleep(2000); atomic_store(&f_go,1); usleep(2000); _dispatch_verif_atomic_cb=cb; atomic_store(&f_arm,0);
+  if(write(p[1],"456789abcdef",12)!=12){} usleep(500); close(p[1]);
+  for(int w=0; w<3000 && atomic_load(&b_done)<3; w++) usleep(1000);
+  if(atomic_load(&b_done)<3) fail("reads scheduled right behind the stop of another channel of the descriptor were never served (3 s after their data and end of file had arrived): iteration / completed of 3 / handler was held",it,atomic_load(&b_done),atomic_load(&f_held));
+  for(int w=0; w<3000 && atomic_load(&a_done)<2; w++) usleep(1000);
+  dispatch_io_close(B,0); dispatch_release(A); dispatch_release(B);
+  for(int c=0;c<2 && !viol;c++) if(dispatch_semaphore_wait(cs,dispatch_time(DISPATCH_TIME_NOW,10ll*1000000000ll))) fail("a cleanup handler never ran (10 s) after the forced double request: iteration",it,0,0);
+  close(p[0]); dispatch_sync(hq,^{}); dispatch_release(hq); dispatch_release(cq); dispatch_release(cs); return 5; }
 int main(int argc,char**argv){ seed=argc>1?strtoull(argv[1],0,0):1; int iters=argc>2?atoi(argv[2]):400; rs=seed;
   signal(SIGILL,on_crash); signal(SIGSEGV,on_crash); signal(SIGABRT,on_crash); signal(SIGBUS,on_crash); signal(SIGPIPE,SIG_IGN);
-  main_th=pthread_self(); _dispatch_verif_atomic_cb=cb; long n=0; for(int i=0;i<iters && !viol;i++) n+=iteration(i); _dispatch_verif_atomic_cb=0;
+  main_th=pthread_self(); _dispatch_verif_atomic_cb=cb; long n=0; for(int i=0;i<iters && !viol;i++){ n+=iteration(i); if(i%100==0 && !viol && !getenv("REARM_SKIP_ERR")) n+=forced_err(i); if(i%100==(getenv("REARM_SKIP_ERR")?0:50) && !viol) n+=forced_twice(i); } _dispatch_verif_atomic_cb=0;
   if(viol){ printf("ORACLE VIOL seed=%llu %s\n",(unsigned long long)seed,vmsg); fflush(stdout); _exit(1); }
   printf("ORACLE ok items=%ld holds=%ld\n",n,atomic_load(&holds)); fflush(stdout); _exit(0); }
